@@ -64,7 +64,7 @@ mod proofs {
         deque_fifo_case(3, 27);
     }
 
-    // @harness id=deque_fifo_seq4 props=C01,C08 kind=bounded bound=all_81_operation_sequences_of_length_4,_two_deques_on_one_slab tier=thorough timeout=3000 fn=Deque::push_back,Deque::push_front,Deque::pop_front,Deque::is_empty
+    // @harness id=deque_fifo_seq4 props=C01,C08 kind=bounded bound=all_81_operation_sequences_of_length_4,_two_deques_on_one_slab tier=attempt timeout=3000 fn=Deque::push_back,Deque::push_front,Deque::pop_front,Deque::is_empty
     #[kani::proof]
     #[kani::unwind(82)]
     fn deque_fifo_seq4() {
